@@ -79,6 +79,16 @@ def main() -> None:
         "notes": "Single entry point ./check <Cxx> --tier quick|thorough [--replay f]. VERIF_SEED seeds every random choice. known_findings.json lists recorded genuine defects; see DESIGN.md.",
         "not_applicable": na,
     }
+    # root module of the lake library: everything except Audit/* (so that `lake build` checks all of it)
+    lean = VERIF / "lean"
+    mods = sorted(
+        ".".join(p.relative_to(lean).with_suffix("").parts)
+        for p in (lean / "PynencModel").rglob("*.lean")
+        if "Audit" not in p.parts
+    )
+    root = "-- GENERATED by harness/manifest.py: imports every module of the library\n" + "".join(f"import {m}\n" for m in mods)
+    if (lean / "PynencModel.lean").read_text() != root:
+        (lean / "PynencModel.lean").write_text(root)
     (VERIF / "MANIFEST.json").write_text(json.dumps(m, indent=1, ensure_ascii=False) + "\n")
 
 
